@@ -61,6 +61,11 @@ type vmClause struct {
 }
 
 type vmTable struct {
+	// Helpers: methods of the VM that a dispatch clause hands its work to and
+	// that fetch the instruction's operands themselves (the body of a clause
+	// moved into a method of its own), with the opcodes whose clauses call them.
+	// The rules that read "the clause of op X" read these methods with it.
+	Helpers  map[*types.Func]map[string]bool
 	Eval     *types.Func
 	Switch   *ast.SwitchStmt
 	Clauses  map[string]*vmClause // by opcode constant name
@@ -107,6 +112,8 @@ type vmAn struct {
 	ipField  *types.Var
 	summ     map[*types.Func]*methodSummary
 	inFlight map[*types.Func]bool
+	clause   string
+	helpers  map[*types.Func]map[string]bool
 }
 
 // methodSummary: net stack effect of a VirtualMachine method on success.
@@ -229,7 +236,9 @@ func VMTable(p *core.Program) *vmTable {
 				core.Undecidedf("dispatch clause label %s at %s is not an op.Code constant", exprStr(e), p.Pos(e.Pos()))
 			}
 			st := &vmSt{pops: core.Const(0), push: core.Const(0), env: map[types.Object]*core.Lin{}, lens: map[types.Object]*core.Lin{}}
+			a.clause = cst.Name()
 			outs := a.block(cl.Body, []*vmSt{st})
+			a.clause = ""
 			c := &vmClause{Name: cst.Name(), Const: cst, Pos: cl.Pos()}
 			seen := map[string]bool{}
 			for _, o := range outs {
@@ -252,8 +261,35 @@ func VMTable(p *core.Program) *vmTable {
 			t.Clauses[cst.Name()] = c
 		}
 	}
+	t.Helpers = a.helpers
 	vmTableCache[p] = t
 	return t
+}
+
+// ClauseFuncs: the functions that make up the handlers of the named opcodes -
+// the dispatch function and the helpers that only clauses of these opcodes
+// hand their work to.
+func (t *vmTable) HelpersOf(names ...string) []*types.Func {
+	var out []*types.Func
+	for h, ops := range t.Helpers {
+		all := len(ops) > 0
+		for o := range ops {
+			found := false
+			for _, n := range names {
+				if n == o {
+					found = true
+				}
+			}
+			if !found {
+				all = false
+			}
+		}
+		if all {
+			out = append(out, h)
+		}
+	}
+	sort.Slice(out, func(i, j int) bool { return out[i].Name() < out[j].Name() })
+	return out
 }
 
 func dedup(ss []string) []string {
@@ -619,7 +655,111 @@ func (a *vmAn) bind(lhs ast.Expr, rhs ast.Expr, st *vmSt, val *core.Lin) {
 	}
 }
 
+// inlinedCall: the statement hands the work of the clause to a method of the
+// VM that fetches operands itself (the body of a dispatch clause moved into a
+// method of its own): `if err := vm.m(..); err != nil { return err }`,
+// `vm.m(..)` or `return vm.m(..)`.  Such a method has no summary (what it
+// fetches belongs to the instruction being executed); its body is interpreted
+// in place, on the state of the clause.
+func (a *vmAn) inlinedCall(s ast.Stmt) (call *ast.CallExpr, shape string) {
+	pick := func(e ast.Expr) *ast.CallExpr {
+		ce, ok := ast.Unparen(e).(*ast.CallExpr)
+		if !ok {
+			return nil
+		}
+		cal := calleeOf(a.info, ce)
+		if cal == nil || core.RecvNamed(cal) != a.vmT || cal == a.pop || cal == a.pushF || cal == a.fetchF || a.inFlight[cal] {
+			return nil
+		}
+		if fd := a.p.Decl(cal); fd == nil || fd.Body == nil {
+			return nil
+		}
+		if sm := a.summary(cal); sm.OK || !strings.Contains(sm.Why, "fetches operands") {
+			return nil
+		}
+		return ce
+	}
+	switch s := s.(type) {
+	case *ast.ExprStmt:
+		return pick(s.X), "stmt"
+	case *ast.ReturnStmt:
+		if len(s.Results) == 1 {
+			return pick(s.Results[0]), "return"
+		}
+	case *ast.IfStmt:
+		as, ok := s.Init.(*ast.AssignStmt)
+		if !ok || len(as.Lhs) != 1 || len(as.Rhs) != 1 || s.Else != nil {
+			return nil, ""
+		}
+		be, ok := ast.Unparen(s.Cond).(*ast.BinaryExpr)
+		if !ok || be.Op != token.NEQ || !isNilIdent(a.info, be.Y) {
+			return nil, ""
+		}
+		lid, ok1 := as.Lhs[0].(*ast.Ident)
+		cid, ok2 := ast.Unparen(be.X).(*ast.Ident)
+		if !ok1 || !ok2 || objOfIdent(a.info, lid) == nil || objOfIdent(a.info, lid) != objOfIdent(a.info, cid) {
+			return nil, ""
+		}
+		// the body hands the error on
+		if len(s.Body.List) != 1 {
+			return nil, ""
+		}
+		if rs, ok := s.Body.List[0].(*ast.ReturnStmt); !ok || len(rs.Results) == 0 || isNilIdent(a.info, rs.Results[len(rs.Results)-1]) {
+			return nil, ""
+		}
+		return pick(as.Rhs[0]), "iferr"
+	}
+	return nil, ""
+}
+
+func (a *vmAn) inline(call *ast.CallExpr, shape string, st *vmSt) []*vmSt {
+	cal := calleeOf(a.info, call)
+	fd := a.p.Decl(cal)
+	sig := cal.Type().(*types.Signature)
+	var vals []*core.Lin
+	for _, arg := range call.Args {
+		vals = append(vals, a.intVal(arg, st))
+		a.expr(arg, st)
+	}
+	if !sig.Variadic() && len(vals) == sig.Params().Len() {
+		for i := range vals {
+			if vals[i] != nil {
+				st.env[sig.Params().At(i)] = vals[i]
+			}
+		}
+	}
+	if a.clause != "" {
+		if a.helpers == nil {
+			a.helpers = map[*types.Func]map[string]bool{}
+		}
+		if a.helpers[cal] == nil {
+			a.helpers[cal] = map[string]bool{}
+		}
+		a.helpers[cal][a.clause] = true
+	}
+	a.inFlight[cal] = true
+	outs := a.block(fd.Body.List, []*vmSt{st})
+	delete(a.inFlight, cal)
+	for _, o := range outs {
+		switch o.end {
+		case "err":
+		case "ret", "":
+			o.end = ""
+			if shape == "return" {
+				o.end = "ret"
+			}
+		default:
+			o.problems = append(o.problems, "method "+cal.Name()+" ends with "+o.end+" outside a loop")
+		}
+		o.notes = append(o.notes, cal.Name()+":inlined")
+	}
+	return outs
+}
+
 func (a *vmAn) stmt(s ast.Stmt, st *vmSt) []*vmSt {
+	if call, shape := a.inlinedCall(s); call != nil {
+		return a.inline(call, shape, st)
+	}
 	switch s := s.(type) {
 	case *ast.AssignStmt:
 		// value of rhs is computed against the fetch index *before* counting
@@ -774,20 +914,77 @@ func (a *vmAn) stmt(s ast.Stmt, st *vmSt) []*vmSt {
 		}
 		hasDefault := false
 		var outs []*vmSt
+		// a switch over an operand with constant labels is the if-chain
+		// "x == k1 ... else if x == k2 ...": each clause runs under the fact of
+		// its label, the default (or the way past the switch) under the
+		// negation of every label
+		var tag ast.Expr
+		if ss, ok := s.(*ast.SwitchStmt); ok {
+			tag = ss.Tag
+		}
+		labelFact := func(lbl ast.Expr) (opndFact, bool) {
+			if tag == nil {
+				return opndFact{}, false
+			}
+			return a.condFact(&ast.BinaryExpr{X: tag, Op: token.EQL, Y: lbl}, st)
+		}
+		var negs []opndFact
+		allLabelsAreFacts := tag != nil
+		for _, cc := range body.List {
+			for _, lbl := range cc.(*ast.CaseClause).List {
+				if f, ok := labelFact(lbl); ok {
+					f.Eq = false
+					negs = append(negs, f)
+				} else {
+					allLabelsAreFacts = false
+				}
+			}
+		}
+		rest := func() *vmSt {
+			r := st.clone()
+			if allLabelsAreFacts {
+				for _, f := range negs {
+					if !consistent(r.facts, f) {
+						return nil
+					}
+					r.facts = append(r.facts, f)
+				}
+			}
+			return r
+		}
 		for _, cc := range body.List {
 			cl := cc.(*ast.CaseClause)
+			var starts []*vmSt
 			if cl.List == nil {
 				hasDefault = true
-			}
-			for _, o := range a.block(cl.Body, []*vmSt{st.clone()}) {
-				if o.end == "break" {
-					o.end = ""
+				if r := rest(); r != nil {
+					starts = append(starts, r)
 				}
-				outs = append(outs, o)
+			} else if allLabelsAreFacts {
+				for _, lbl := range cl.List {
+					f, _ := labelFact(lbl)
+					if consistent(st.facts, f) {
+						c := st.clone()
+						c.facts = append(c.facts, f)
+						starts = append(starts, c)
+					}
+				}
+			} else {
+				starts = append(starts, st.clone())
+			}
+			for _, start := range starts {
+				for _, o := range a.block(cl.Body, []*vmSt{start}) {
+					if o.end == "break" {
+						o.end = ""
+					}
+					outs = append(outs, o)
+				}
 			}
 		}
 		if !hasDefault {
-			outs = append(outs, st.clone())
+			if r := rest(); r != nil {
+				outs = append(outs, r)
+			}
 		}
 		return outs
 	case *ast.ForStmt:
